@@ -46,11 +46,16 @@ def run(ctx: Ctx):
 def formula(ctx: Ctx):
     ci = ctx.repo.cls(MM, "_Zscores")
     m = ctx.repo.lookup(ci, "_calculate_zscores")
-    body = SUMMARIZER.summarize(m.node)
+    # parameters are positional at the call sites: whatever they are called, the i-th one is the i-th canonical operand
+    CANON = ["counts", "table_bases", "row_bases", "column_bases"]
+    params = [p_ for p_ in m.params if p_ not in ("self", "cls")]
     where = f"{MM}::_Zscores._calculate_zscores"
+    if len(params) != len(CANON):
+        ctx.undecided("params", where, params, str(CANON))
+        return
+    body = SUMMARIZER.summarize(m.node, {a: ast.Name(id=c, ctx=ast.Load()) for a, c in zip(params, CANON) if a != c})
     paths = strip_ifexp_paths(body)
-    params = m.params
-    ctx.ob("params", where, params, "['counts', 'table_bases', 'row_bases', 'column_bases']", params == ["counts", "table_bases", "row_bases", "column_bases"])
+    ctx.held("params", where, params, "four positional operands: counts, table bases, row bases, column bases")
     from ..exprdiff import canon
 
     def or_atoms(g):
